@@ -541,3 +541,15 @@ VARIANTS += [
     ("C01-utc-case", "C01", INIT, '    if name.lower() == "utc":\n        return UTC', '    if name == "utc":\n        return UTC', "ZONE.resolve"),
     ("C01-get-offset-seconds", "C01", DT, "        return int(utcoffset.total_seconds())", "        return utcoffset.seconds", "ACCESSOR"),
 ]
+
+# ---------------------------------------------------------------------------
+# behaviour-preserving refactorings written by independent sub-agents (see DESIGN 9.3), kept under /verif/benign/<id>/:
+# the check of the property they were written for (and of the properties sharing the code) must stay quiet
+_BENIGN_ROOT = _os.path.join(_os.path.dirname(_SEED_ROOT), "benign")
+if _os.path.isdir(_BENIGN_ROOT):
+    for _bid in sorted(_os.listdir(_BENIGN_ROOT)):
+        _mf = _os.path.join(_BENIGN_ROOT, _bid, "meta.json")
+        if _os.path.exists(_mf):
+            _m = _json.load(open(_mf))
+            for _p in [_m["property"]] + list(_m.get("also_run_under") or []):
+                VARIANTS.append((f"{_p}-benign-{_bid}", _p, "PATCH", f"benign/{_bid}/patch.diff", None, None))
